@@ -243,6 +243,20 @@ where
     pub const fn point(&self) -> &Point<T, D> {
         &self.point
     }
+
+    /// Verification hook (fault injection): overwrite the coordinates in place.
+    #[cfg(feature = "verif-hooks")]
+    #[doc(hidden)]
+    pub fn verif_set_point(&mut self, point: Point<T, D>) {
+        self.point = point;
+    }
+
+    /// Verification hook (fault injection): overwrite the UUID in place (no validation).
+    #[cfg(feature = "verif-hooks")]
+    #[doc(hidden)]
+    pub fn verif_set_uuid(&mut self, uuid: Uuid) {
+        self.uuid = uuid;
+    }
 }
 
 // =============================================================================
